@@ -222,6 +222,9 @@ func c18Witness(re *regexp.Regexp, pattern string, cands []string) (string, bool
 
 // c18Text judges one schema text. probes == nil: derive probe strings from the
 // pool. witness: strings believed to match (generated by construction).
+// c18Pinned is set while the pinned witnesses of recorded findings are judged (no carve-outs).
+var c18Pinned bool
+
 func c18Text(r *mon.Run, text string, probes []string, witness []string) (accepted bool) {
 	r.Eval(1)
 	cs := c18Case{Text: []byte(text), Probes: probes, Witness: witness}
@@ -334,7 +337,20 @@ func c18Text(r *mon.Run, text string, probes []string, witness []string) (accept
 		c18Violate(r, "panic", "RSchema.Example/"+p.Site, cs, "Example() of %s panicked: %s", q, p.Value)
 	} else if eerr != nil {
 		if w, ok := c18Witness(re, pattern, witness); ok {
-			c18Violate(r, "example-match", text, cs, "Example() of the accepted schema %s failed (%s) although the pattern matches e.g. %q", q, c18Err(eerr), mon.Trunc(w, 80))
+			switch {
+			case !c18Pinned && c18HasAssertion(pattern) && strings.Contains(eerr.Error(), "no matching example found"):
+				// recorded finding family: the example generator (third-party reggen) ignores ^ $ \b \B, so for
+				// patterns whose match hinges on such an assertion no example is found; pinned witness: /\b/
+				r.Count("carved_out_assertion_pattern_without_example", 1)
+				noExample = true
+			case !c18Pinned && strings.Contains(eerr.Error(), "invalid argument to Intn"):
+				// recorded finding family: the generator fails on an empty character class; pinned witness: /a[^\W\w]|b/
+				r.Count("carved_out_empty_class_pattern_without_example", 1)
+				noExample = true
+			default:
+				c18Violate(r, "example-match", text, cs, "Example() of the accepted schema %s failed (%s) although the pattern matches e.g. %q", q, c18Err(eerr), mon.Trunc(w, 80))
+				noExample = true
+			}
 		} else {
 			// no matching string known: possibly nothing matches at all, then there is no example to give
 			r.Count("not_judged:example_error_and_no_matching_string_found", 1)
@@ -748,6 +764,12 @@ func c18Generated(r *mon.Run, rng *rand.Rand, i int) {
 var c18Alpha = []string{"/", `\`, "a", ".", "*", "+", "?", "(", ")", "[", "]", "^", "$", "|", "{", "}", "1", ",", "-", `"`, "\xc3\xa9", "\x7f", "\t"}
 
 func c18Run(r *mon.Run) {
+	if r.Shard == 0 {
+		c18Pinned = true
+		c18Text(r, `/\b/`, nil, []string{"b"})
+		c18Text(r, `/a[^\W\w]|b/`, nil, []string{"b"})
+		c18Pinned = false
+	}
 	// (1) every text over the alphabet; texts that do not start with '/' are
 	// rejected on their first byte and are enumerated up to three symbols only
 	L := r.Pick(5, 7)
@@ -800,6 +822,7 @@ func init() {
 		Replay: func(r *mon.Run, raw stdjson.RawMessage) {
 			var c c18Case
 			stdjson.Unmarshal(raw, &c)
+			c18Pinned = true // a replay judges the recorded case without carve-outs
 			c18Text(r, string(c.Text), c.Probes, c.Witness)
 		},
 		Rule:               "every text over the 23-symbol alphabet {/ \\ a . * + ? ( ) [ ] ^ $ | { } 1 , - quote é 0x7f TAB} starting with '/' up to 5 (quick) / 7 (thorough) symbols (texts with another first byte: up to 3 symbols), a fixed list of edge texts (empty, one byte, non-UTF-8, backslash parities, counted-repetition limit), and 30k / 1M generated well-formed patterns (literals, escapes incl. \\/ and \\\\, dot, positive/negated classes with ranges and \\d\\w\\s, Perl classes, plain/non-capturing/named groups to depth 3, alternation, * + ? {n} {n,} {n,m} with n,m <= 5 and lazy forms, ^ at the start, $ at the end, optional trailing text; one in ten damaged by a byte mutation). Per text: regex.New(text).Check() vs (starts with '/', first later '/' behind an even number of backslashes, text between compiles with Go regexp); rejections must be a kit.JSchemaError whose index lies in the text, with a line number and a message that can be printed; for accepted texts Len() = closing index + 1, GetAST().Value = /pattern/, OpenAPI pattern = pattern, Example() (fresh object) matched by the pattern, and with the schema registered as @r the schema \"v\" // {type:\"@r\"} is accepted iff regexp matches v, for up to 5 probe strings (generated patterns: two matches by construction, two near-misses, one random string; enumerated texts: the library's own example plus matching and non-matching strings from a 30-string pool, 5 probes up to 6 bytes of text, 3 beyond). Enumerated texts with more than one symbol behind the closing delimiter get the example and user-type clauses on every eighth text (hash of the text) with one probe. distinct_nontrivial = distinct texts with an opening and a closing delimiter (hashed, capped at 500k per shard).",
